@@ -282,4 +282,36 @@ class ReservedKeys(object):
         return judge(decls, False, 'C03|reserved-key|%s' % case['n'])
 
 
-FAMILIES = [Sequences(), Names(), Parts(), ReservedKeys()]
+class TableOrders(object):
+    name = 'table-orders'
+    describe = ('a table with one / two columns and a scalar: every permutation of (table, row, SEQUENCE type, columns, scalar) for the '
+                'one-column table, every rotation and the reversal for two columns; node types must follow the SYNTAX / SEQUENCE '
+                'definitions whatever the order')
+
+    def blocks(self, tier):
+        return [{'ncols': 1}, {'ncols': 2}]
+
+    def cases(self, block, tier):
+        n = 4 + block['ncols']   # table, row, seq, columns..., scalar
+        if block['ncols'] == 1 or tier == 'thorough':
+            for perm in itertools.permutations(range(n)):
+                yield {'ncols': block['ncols'], 'perm': list(perm)}
+        else:
+            for r in range(n):
+                yield {'ncols': block['ncols'], 'perm': list(range(r, n)) + list(range(r))}
+            yield {'ncols': block['ncols'], 'perm': list(range(n))[::-1]}
+
+    def run_case(self, case):
+        t = make('tbl', 0)
+        if case['ncols'] == 1:
+            # drop the value column (and its SEQUENCE member)
+            t = [d for d in t if d['name'] != 'sym0Val']
+            for d in t:
+                if d['k'] == 'type':
+                    d['syntax'] = ('seq', [m for m in d['syntax'][1] if m[0] != 'sym0Val'])
+        items = t + make('ot', 1)
+        items = [items[i] for i in case['perm']]
+        return judge(context() + items, False, 'C03|table-order|cols=%d' % case['ncols'])
+
+
+FAMILIES = [Sequences(), Names(), Parts(), ReservedKeys(), TableOrders()]
